@@ -560,7 +560,7 @@ func (fr *Frame) applyContract(site ssa.Instruction, k *FuncContract, ce callee,
 	// terms quantified clauses of the callee's contract are triggered by
 	for _, a := range c.Args {
 		sl, ok := a.(*ssa.Slice)
-		if !ok {
+		if !ok || vc.contract == nil || !vc.contract.Flags["seed-elems"] {
 			continue
 		}
 		pt, ok := sl.X.Type().Underlying().(*types.Pointer)
